@@ -9,7 +9,7 @@ from runner import Stream, write_cases, split_cases
 
 ID = "C14"
 IMPORTS = ["CaresProps.C14"]
-LEAN_TARGETS = ["CaresProps.C14"]
+LEAN_TARGETS = ["CaresProps.C14", "driver_dsa"]
 THEOREMS = vlib.discover_theorems("CaresProps/C14.lean")
 TRUSTED = [
     "Lean 4.33.0 kernel; axioms allowed: propext, Classical.choice, Quot.sound",
@@ -123,6 +123,16 @@ STREAMS = [
            nontrivial=lambda c, o: any(l.startswith("allocs=") and not l.endswith("fired=0") for l in o),
            opkind=lambda l: l.split()[0] if not l.startswith("#") else "scenario:" + l.split()[1].split("=")[1]),
 ]
+
+
+def _container_streams():
+    # the tie of the container-atomicity theorems: the containers under a failing allocator (C19's harness and model)
+    from props import C19 as _c19
+    return [st for st in _c19.STREAMS if st.name in ("allocfail", "allocfail_typed")]
+
+
+STREAMS = STREAMS + _container_streams()
+DRIVER_MODULES = ["Driver.DsaMain"]
 
 LEVEL_TEXT = ("Proof (partial): Lean 4 theorems that an allocation failure inside the container layer (array growth/insert, hash "
               "table insert/expand, buffer ensure-space/append) is atomic - abstract value unchanged, invariant kept, failure "
